@@ -108,6 +108,9 @@ def generate(rng, tier="quick"):
         if k in ("tc_redefine", "tc_redefine_many", "tc_remove"):
             op["names"] = rng.sample(["even", "nonempty", "null", "any"], rng.randint(1, 2))
         if k in ("fc_checks", "cls_checks"):
+            # the same user FUNCTION OBJECT may be registered on several checkers, each time with its own `raises`
+            op["shared_fn"] = rng.choice([None, None, 0, 1, 0])
+            op["raises"] = rng.choice(["v", "v", "k", "vk", "none", "l"])
             op["name"] = rng.choice(["sim-evenlen", "sim-lower", "sim-noz", "ipv4", "sim-new-%d" % (i % 3)])
         if k == "fc_subset":
             op["names"] = rng.sample(["ipv4", "date", "regex", "email"], rng.randint(0, 3))
@@ -240,6 +243,23 @@ def execute(scn):
             if variant % 2:
                 yield X.ValidationError("override(%s,%d): always fails for %r" % (name, variant, instance))
         return kw
+
+    RAISES = {"v": (ValueError,), "k": (KeyError,), "vk": (ValueError, KeyError), "none": (), "l": (LookupError,)}
+
+    def _shared0(instance):
+        if instance == "z":
+            raise KeyError("dsim: z")
+        if instance == "(":
+            raise ValueError("dsim: (")
+        return not isinstance(instance, str) or len(instance) % 2 == 0
+
+    def _shared1(instance):
+        if instance == "ABC":
+            raise IndexError("dsim: ABC")
+        if instance == "abc":
+            raise ValueError("dsim: abc")
+        return not isinstance(instance, str) or instance != "ab"
+    shared_fns = [_shared0, _shared1]
 
     violations = []
     suspended = []       # {"it", "first", "full", "owner", "step"}
@@ -472,15 +492,21 @@ def execute(scn):
                 if own:
                     tgt = own[op["a"] % len(own)]
                     fn = B.make_format(op["name"] if op["name"] in B.FORMATS else "sim-lower", op["v"], collab)
-                    tgt["obj"].checks(op["name"], raises=(ValueError,))(fn)
+                    if op.get("shared_fn") is not None:
+                        fn = shared_fns[op["shared_fn"]]
+                        probe_count("same_function_object_registered_again")
+                    tgt["obj"].checks(op["name"], raises=RAISES[op.get("raises", "v")])(fn)
                     tgt["vec"] = probe_fc(tgt["obj"])          # the target itself is *meant* to change
                     ok = True
                     shared_touch += 1
             elif k == "cls_checks":
                 fn = B.make_format(op["name"] if op["name"] in B.FORMATS else "sim-noz", op["v"], collab)
+                if op.get("shared_fn") is not None:
+                    fn = shared_fns[op["shared_fn"]]
+                    probe_count("same_function_object_registered_again")
                 if any(o["kind"] == "fc" and o["born"] >= 0 for o in objs):
                     probe_count("cls_checks_after_instance_created")
-                FormatChecker.cls_checks(op["name"], raises=(ValueError,))(fn)
+                FormatChecker.cls_checks(op["name"], raises=RAISES[op.get("raises", "v")])(fn)
                 if op["name"] not in model_registry:
                     model_registry = sorted(model_registry + [op["name"]])
                 ok = True
